@@ -19,6 +19,18 @@ CHECKS = {
    text="Explicit-state search on the *victims* grammar: full nodes of running workloads over {preemptible, non-preemptible by priority or explicit field} x priority x 3 leaf queues in 2 departments x last-start {absent, old, recent} x elastic/gang, 4 min-runtime placements (leaf / parent / LCA child, preempt and reclaim), 1-2 pending preemptors; every Evict decision is checked against a reference implementation of the documented eligibility rules (preemptibility, min-runtime resolution incl. LCA, same-queue+strictly-lower priority for preempt, other queue for reclaim, preemptor placed in the same cycle, consolidation victim re-placed elsewhere).",
    note="Trusted: as C01; min-runtimes are 0 or 1000h and last-start stamps years old or written during the run, so the wall clock cannot flip protection.",
    technique="explicit-state model checking of the implementation (BFS over canonical cluster worlds, real scheduler cycle as transition relation)"),
+ "C08": dict(engine="clustermc", cat="model_checking", ref="§5 C08",
+   text="Explicit-state search on the *limits* grammar: 6 queue trees (2-3 levels; GPU limits 0/0.5/1/2/unlimited on leaves and ancestors, quotas 0/1/unlimited, a CPU limit) x whole / fractional / gpu-memory / multi-fraction / elastic / gang / non-preemptible workloads, depth 3 (elastic growth across cycles). Oracle: per queue and ancestor and resource, allocation (occupying + bound + nominated - evicted, replayed sequentially over the decision log) recomputed from pod specs; violation iff a decision raised it above the limit, or raised the non-preemptible part above the deserved quota.",
+   note="Trusted: as C01. gpu-memory requests are converted with the exact node ratio (a lower bound of what the scheduler charges), terminating pods are not counted as allocation.",
+   technique="explicit-state model checking of the implementation (BFS over canonical cluster worlds, real scheduler cycle as transition relation)"),
+ "C15": dict(engine="clustermc", cat="model_checking", ref="§5 C15",
+   text="Closed-system macro steps (real cycle; all binds complete; every evicted/terminating pod is recreated as pending with a later creation time) from every world of the *closed* grammar (1-2 nodes, 3 queue trees, 2-3 workloads incl. gangs, elastic, fractions, priorities) x 5 scheduler settings (consolidation on/off, consolidating reclaim, saturation multiplier 1.2, spread), run until the canonical world repeats or 10 steps; a repeated canonical world with >= 1 eviction in between is a livelock (lasso).",
+   note="Trusted: as C01 plus the closed-system environment (recreate keeps the pod name/spec, strips placement). Step cap hit => exhaustive:false, not a violation.",
+   technique="explicit-state model checking of the implementation with lasso detection on the canonical cluster state"),
+ "C16": dict(engine="clustermc", cat="model_checking", ref="§5 C16",
+   text="Explicit-state search on the *order* grammar: a class of 2-3 identical pending workloads in one leaf queue in every priority/creation-order sequence (5 shapes incl. gang, fraction, non-preemptible) x 5 competitor sets in other queues x flat and 2-level queue trees x capacity for fewer than all, under map-iteration seeds 0-3 (heap order / reorder paths), signatures on, spread. Oracle from world objects + decisions made during the allocate action: no comparable pair with the lower-priority (or younger) one placed and the higher (older) one unplaced.",
+   note="Trusted: as C01; Go map order is owned through the O-maporder overlay (small maps iterate in insertion order rotated by the seed).",
+   technique="explicit-state model checking of the implementation (BFS over canonical cluster worlds, real scheduler cycle as transition relation, map-order seeds enumerated)"),
 }
 
 NOT_APPLICABLE = []
